@@ -144,3 +144,6 @@ def check(prog: Program, rep):
     # (or queued fix) is stated (C05.R1)
     from rules.common import RuleProxy as _RPf
     semantic.flag_pairing(prog, _RPf(rep, "C07.R2"), "C05.R1")
+    from rules.plumb import constraint_edges_trusted_rule, constraints_as_safe_sequences_rule
+    constraint_edges_trusted_rule(prog, rep, "C07.R8")
+    constraints_as_safe_sequences_rule(prog, _RPf(rep, "C07.R8"), "C05.R10")
